@@ -74,6 +74,28 @@ def check(prog, run):
                               file, getattr(bad[0].raised.node, "lineno", init.node.lineno), cls.qualname)
             else:
                 run.ok("sense-error-constructible-and-printable", "SCSICheckCondition from %s print_data=%s" % (label, show))
+    # ... and a target (or an HBA that truncates) can return a sense buffer of any length: every length from 1 byte up, for
+    # each defined response code, with all other bytes arbitrary
+    nshort = 0
+    for rc in (0x70, 0x71, 0x72, 0x73):
+        for ln in list(range(1, 20)) + [24, 32]:
+            for show in (False, True):
+                nshort += 1
+
+                def th1(rc=rc, ln=ln, show=show):
+                    buf = Buf(cells=[rc] + [mem_byte("sense", (None, i)) for i in range(1, ln)])
+                    e = I.instantiate(cls, [buf], {"print_data": show} if show else {}, None, _F())
+                    return I.call_function(strf, [e], {}, None, _F())
+                bad = [p for p in I.explore(th1, max_paths=64) if not p.returned]
+                c = "SCSICheckCondition response code %#x, %d byte sense" % (rc, ln)
+                if bad:
+                    run.violation("sense-error-constructible-and-printable", c,
+                                  "a %d-byte sense buffer with response code %#x%s: constructing / printing the error raises %s"
+                                  % (ln, rc, " (print_data=True)" if show else "", bad[0].raised.describe()),
+                                  file, getattr(bad[0].raised.node, "lineno", init.node.lineno), cls.qualname)
+                else:
+                    run.ok("sense-error-constructible-and-printable", c + (" print_data" if show else ""), nontrivial=False)
+    run.count("short_sense_cases", nshort)
     for show in (False, True):
         def th(show=show):
             e = I.instantiate(cls, [View("sense")], {"print_data": show} if show else {}, None, _F())
